@@ -12,6 +12,121 @@ Import ListNotations.
 Open Scope string_scope.
 Open Scope list_scope.
 
+(* ================= the values carried by the errors (audit B16) ================= *)
+(* each payload function of Model/External.v returns None exactly when the boolean check the
+   theorems speak about holds, and otherwise names a real offender *)
+Lemma forallb_false_ex {A} (f : A -> bool) l : forallb f l = false -> exists x, In x l /\ f x = false.
+Proof.
+  induction l as [|a l IH]; cbn; [discriminate|]. destruct (f a) eqn:E; cbn.
+  - intros H. destruct (IH H) as [x [Hx Hf]]. eauto.
+  - intros _. eauto.
+Qed.
+Lemma is_nil_false {A} (l : list A) : is_nil l = false <-> l <> [].
+Proof. destruct l; cbn; split; congruence. Qed.
+Lemma in_iset_inter {A} dec (a b : list A) x : In x (iset_inter dec a b) <-> In x a /\ In x b.
+Proof.
+  unfold iset_inter. rewrite filter_In. destruct (memb_spec dec x b); intuition congruence.
+Qed.
+Lemma in_output_overlap outputs a p :
+  In p (output_overlap outputs a) <-> In p outputs /\ In p (predicates (an_formula a)).
+Proof.
+  unfold output_overlap. rewrite filter_In. destruct (memb_spec pred_dec p outputs); intuition congruence.
+Qed.
+Lemma is_assumption_role a : is_assumption a = true <-> an_role a = RAssumption.
+Proof. unfold is_assumption. destruct (an_role a); split; congruence. Qed.
+
+Lemma placeholder_clash_name_none l : forall names,
+  placeholder_clash_name l names = None <-> placeholder_clash l names = false.
+Proof.
+  induction l as [|c l IH]; intros names; cbn; [tauto|].
+  destruct (memb string_dec (fcname c) names); [split; discriminate|apply IH].
+Qed.
+(* the name returned is the name of two placeholder entries (at different positions of the
+   IndexSet of placeholders, hence - the set is duplicate-free - of different sorts) *)
+Lemma placeholder_clash_name_some l : forall names n, placeholder_clash_name l names = Some n ->
+  exists l1 c l2, l = l1 ++ c :: l2 /\ fcname c = n /\ In n (names ++ map fcname l1).
+Proof.
+  induction l as [|c l IH]; intros names n; cbn; [discriminate|].
+  destruct (memb_spec string_dec (fcname c) names) as [Hin|Hn].
+  - intros [= <-]. exists [], c, l. cbn. rewrite app_nil_r. auto.
+  - intros H. destruct (IH _ _ H) as [l1 [c' [l2 [-> [Hc Hi]]]]].
+    exists (c :: l1), c', l2. cbn. rewrite <- app_assoc in Hi. auto.
+Qed.
+Lemma ug_placeholders_nodup u : NoDup (ug_placeholders u).
+Proof.
+  unfold ug_placeholders. generalize (NoDup_nil fconst). generalize (@nil fconst).
+  induction u as [|e u IH]; intros acc Hacc; cbn; [exact Hacc|].
+  apply IH. destruct e; try exact Hacc. apply nodup_iset_insert, Hacc.
+Qed.
+Lemma placeholder_clash_name_sorts u n : placeholder_clash_name (ug_placeholders u) [] = Some n ->
+  exists s1 s2, s1 <> s2 /\ In (mkfconst n s1) (ug_placeholders u) /\ In (mkfconst n s2) (ug_placeholders u).
+Proof.
+  intros H. assert (Hnd := ug_placeholders_nodup u).
+  destruct (placeholder_clash_name_some _ _ _ H) as [l1 [c [l2 [El [Hc Hi]]]]]. cbn in Hi.
+  apply in_map_iff in Hi. destruct Hi as [c1 [Hc1 Hin1]].
+  rewrite El in *. exists (fcsort c1), (fcsort c). split; [|split].
+  - intros Es. apply NoDup_remove_2 in Hnd. apply Hnd. apply in_or_app. left.
+    replace c with c1; [exact Hin1|]. destruct c1, c. cbn in *. congruence.
+  - apply in_or_app. left. replace (mkfconst n (fcsort c1)) with c1; [exact Hin1|]. destruct c1. cbn in *. congruence.
+  - apply in_or_app. right. left. destruct c. cbn in *. congruence.
+Qed.
+
+Lemma first_non_input_none pis ins fs :
+  first_non_input_assumption pis ins fs = None <-> assumptions_only_input pis ins fs = true.
+Proof.
+  unfold first_non_input_assumption, assumptions_only_input.
+  induction fs as [|a fs IH]; cbn; [tauto|].
+  destruct (is_assumption a); cbn; [|exact IH].
+  destruct (subsetb pred_dec _ _); cbn; [exact IH|split; discriminate].
+Qed.
+Lemma first_non_input_some pis ins fs a : first_non_input_assumption pis ins fs = Some a ->
+  In a fs /\ an_role a = RAssumption /\
+  exists p, In p (predicates (an_formula a)) /\ ~ In p pis /\ ~ In p ins.
+Proof.
+  unfold first_non_input_assumption. intros H. apply find_some in H. destruct H as [Hin H].
+  apply andb_true_iff in H. destruct H as [Ha Hs]. apply negb_true_iff in Hs.
+  split; [exact Hin|]. split; [apply is_assumption_role, Ha|].
+  unfold subsetb in Hs. apply forallb_false_ex in Hs. destruct Hs as [p [Hp Hm]]. exists p. split; [exact Hp|].
+  destruct (memb_spec pred_dec p (iset_extend pred_dec pis ins)) as [|Hn]; [discriminate|].
+  rewrite in_iset_extend in Hn. tauto.
+Qed.
+Lemma first_output_overlap_none outs fs :
+  first_output_overlap outs fs = None <-> spec_assumptions_no_output outs fs = true.
+Proof.
+  unfold spec_assumptions_no_output. induction fs as [|a fs IH]; cbn; [tauto|].
+  destruct (is_assumption a); cbn; [|exact IH].
+  unfold output_overlap.
+  assert (E : is_nil (filter (fun p => memb pred_dec p outs) (predicates (an_formula a))) =
+              forallb (fun p => negb (memb pred_dec p outs)) (predicates (an_formula a))).
+  { induction (predicates (an_formula a)) as [|p l IHl]; cbn; [reflexivity|].
+    destruct (memb pred_dec p outs); cbn; [reflexivity|exact IHl]. }
+  rewrite E. destruct (forallb _ (predicates (an_formula a))); cbn; [exact IH|split; discriminate].
+Qed.
+Lemma first_output_overlap_some outs fs ps : first_output_overlap outs fs = Some ps ->
+  ps <> [] /\ exists a, In a fs /\ an_role a = RAssumption /\ ps = output_overlap outs a.
+Proof.
+  induction fs as [|a fs IH]; cbn; [discriminate|].
+  destruct (is_assumption a) eqn:Ea.
+  - destruct (is_nil (output_overlap outs a)) eqn:En.
+    + intros H. destruct (IH H) as [Hne [a' [Hin H']]]. eauto.
+    + intros [= <-]. split; [apply is_nil_false, En|]. exists a. split; [auto|]. split; [apply is_assumption_role, Ea|reflexivity].
+  - intros H. destruct (IH H) as [Hne [a' [Hin H']]]. eauto.
+Qed.
+Lemma first_unsupported_role_none fs :
+  first_unsupported_role fs = None <-> spec_roles_supported fs = true.
+Proof.
+  unfold first_unsupported_role, spec_roles_supported. induction fs as [|a fs IH]; cbn; [tauto|].
+  destruct (an_role a); cbn; try exact IH; split; discriminate.
+Qed.
+Lemma first_unsupported_role_some fs a : first_unsupported_role fs = Some a ->
+  In a fs /\ an_role a <> RAssumption /\ an_role a <> RSpec.
+Proof.
+  unfold first_unsupported_role. intros H. apply find_some in H. destruct H as [Hin H].
+  split; [exact Hin|]. destruct (an_role a); split; congruence.
+Qed.
+Lemma bool_not_true_none {A} (o : option A) (b : bool) : (o = None <-> b = true) -> forall x, o = Some x -> b = false.
+Proof. intros H x E. destruct b; [|reflexivity]. rewrite (proj2 H eq_refl) in E. discriminate. Qed.
+
 (* ================= C11_enforce ================= *)
 Section Enforce.
 Variable is_tight : program -> bool.
@@ -45,8 +160,10 @@ Proof.
   apply ensure_tight_ok in E2.
   destruct (has_private_recursion (et_program t) _) eqn:E3; [discriminate|].
   destruct (is_nil (iset_inter pred_dec (ug_input_predicates (et_user_guide t)) (head_predicates_fol (et_program t)))) eqn:E4; cbn [negb]; [|discriminate].
-  destruct (placeholder_clash (ug_placeholders (et_user_guide t)) []) eqn:E5; [discriminate|].
-  destruct (assumptions_only_input [] (ug_input_predicates (et_user_guide t)) (ug_formulas (et_user_guide t))) eqn:E6; cbn [negb]; [|discriminate].
+  destruct (placeholder_clash_name (ug_placeholders (et_user_guide t)) []) eqn:E5; [discriminate|].
+  apply placeholder_clash_name_none in E5. rewrite E5.
+  destruct (first_non_input_assumption [] (ug_input_predicates (et_user_guide t)) (ug_formulas (et_user_guide t))) eqn:E6; [discriminate|].
+  apply first_non_input_none in E6. rewrite E6.
   destruct (et_specification t) as [p|s].
   - destruct (ensure_program_tightness is_tight t p) as [w2|e|] eqn:E7; [|discriminate|discriminate].
     apply ensure_tight_ok in E7.
@@ -55,9 +172,10 @@ Proof.
     intros _. repeat split; cbn; auto.
     destruct (et_bypass_tightness t); cbn; [reflexivity|].
     destruct E2 as [->|E2]; [|discriminate]. destruct E7 as [->|E7]; [reflexivity|discriminate].
-  - destruct (spec_assumptions_no_output (ug_output_predicates (et_user_guide t)) s) eqn:E7; cbn [negb]; [|discriminate].
-    destruct (assumptions_only_input _ (ug_input_predicates (et_user_guide t)) s); cbn [negb]; [|discriminate].
-    destruct (spec_roles_supported s); cbn [negb]; [|discriminate].
+  - destruct (first_output_overlap (ug_output_predicates (et_user_guide t)) s) eqn:E7; [discriminate|].
+    apply first_output_overlap_none in E7.
+    destruct (first_non_input_assumption _ (ug_input_predicates (et_user_guide t)) s); [discriminate|].
+    destruct (first_unsupported_role s); [discriminate|].
     intros _. repeat split; cbn; auto.
     destruct (et_bypass_tightness t); cbn; [reflexivity|].
     destruct E2 as [->|E2]; [reflexivity|discriminate].
@@ -96,6 +214,7 @@ Proof using is_tight has_private_recursion.
   repeat match goal with
   | |- context [if ?c then _ else _] => destruct c; try discriminate
   | |- context [match et_specification t with _ => _ end] => destruct (et_specification t)
+  | |- context [match ?c with Some _ => _ | None => _ end] => destruct c; try discriminate
   end.
 Qed.
 
@@ -107,9 +226,9 @@ Definition all_seven (t : ext_task) : bool :=
 (* the errors of the applicability checks (the other variants: representation, roles, outline) *)
 Definition applicability_error (e : ext_error) : bool :=
   match e with
-  | NonTightProgram | ProgramContainsPrivateRecursion | InputPredicateInRuleHead
-  | InputOutputPredicatesOverlap | AssumptionContainsNonInputSymbols
-  | OutputPredicateInSpecificationAssumption | PlaceholdersWithIdenticalNamesDifferentSorts => true
+  | NonTightProgram _ | ProgramContainsPrivateRecursion _ | InputPredicateInRuleHead _
+  | InputOutputPredicatesOverlap _ | AssumptionContainsNonInputSymbols _
+  | OutputPredicateInSpecificationAssumption _ | PlaceholdersWithIdenticalNamesDifferentSorts _ => true
   | _ => false
   end.
 
@@ -124,54 +243,134 @@ Proof.
   - exfalso. exact (validate_never_panics _ E).
 Qed.
 
-(* every error of the validation names a condition that is really violated *)
+(* every error of the validation names a condition that is really violated, AND ITS PAYLOAD NAMES
+   THE VIOLATION (audit B16): the program is a program of the task with that defect, the predicate
+   list is exactly the overlap, the formula is an assumption of the named part with a predicate that
+   is not allowed there, the name is the name of two placeholders of different sorts *)
+Definition is_task_program (t : ext_task) (p : program) : Prop :=
+  p = et_program t \/ et_specification t = inl p.
 Definition error_names_violation (t : ext_task) (e : ext_error) : Prop :=
+  let u := et_user_guide t in
+  let inputs := ug_input_predicates u in
+  let outputs := ug_output_predicates u in
   match e with
   | UnsupportedFormulaRepresentation => et_repr t = ReprMu
-  | NonTightProgram => c_tight is_tight t = false
-  | ProgramContainsPrivateRecursion => c_no_private_recursion has_private_recursion t = false
-  | InputOutputPredicatesOverlap => c_io_disjoint t = false
-  | InputPredicateInRuleHead => c_no_input_in_head t = false
-  | PlaceholdersWithIdenticalNamesDifferentSorts => c_placeholders_single_sorted t = false
-  | OutputPredicateInSpecificationAssumption => c_spec_assumptions_no_output t = false
-  | AssumptionContainsNonInputSymbols =>
-      c_ug_assumptions_inputs_only t = false \/
-      exists s, et_specification t = inr s /\
-        assumptions_only_input (task_prog_private t) (ug_input_predicates (et_user_guide t)) s = false
-  | SpecificationContainsUnsupportedRoles =>
-      exists s, et_specification t = inr s /\ spec_roles_supported s = false
-  | OutputPredicateInUserGuideAssumption | ProofOutlineError _ => False
+  | NonTightProgram p =>
+      c_tight is_tight t = false /\ is_task_program t p /\ is_tight p = false
+  | ProgramContainsPrivateRecursion p =>
+      c_no_private_recursion has_private_recursion t = false /\
+      ((p = et_program t /\ has_private_recursion p (task_prog_private t) = true) \/
+       (et_specification t = inl p /\ has_private_recursion p (task_spec_private t) = true))
+  | InputOutputPredicatesOverlap ps =>
+      c_io_disjoint t = false /\ ps = iset_inter pred_dec inputs outputs /\ ps <> [] /\
+      forall p, In p ps <-> In p inputs /\ In p outputs
+  | InputPredicateInRuleHead ps =>
+      c_no_input_in_head t = false /\ ps <> [] /\
+      exists prog, is_task_program t prog /\
+        ps = iset_inter pred_dec inputs (head_predicates_fol prog) /\
+        forall p, In p ps <-> In p inputs /\ In p (head_predicates_fol prog)
+  | PlaceholdersWithIdenticalNamesDifferentSorts n =>
+      c_placeholders_single_sorted t = false /\
+      exists s1 s2, s1 <> s2 /\ In (mkfconst n s1) (ug_placeholders u) /\ In (mkfconst n s2) (ug_placeholders u)
+  | OutputPredicateInSpecificationAssumption ps =>
+      c_spec_assumptions_no_output t = false /\ ps <> [] /\
+      exists s a, et_specification t = inr s /\ In a s /\ an_role a = RAssumption /\
+        ps = output_overlap outputs a /\
+        forall p, In p ps <-> In p outputs /\ In p (predicates (an_formula a))
+  | AssumptionContainsNonInputSymbols a =>
+      an_role a = RAssumption /\
+      ((c_ug_assumptions_inputs_only t = false /\ In a (ug_formulas u) /\
+        exists p, In p (predicates (an_formula a)) /\ ~ In p inputs) \/
+       (exists s, et_specification t = inr s /\
+          assumptions_only_input (task_prog_private t) inputs s = false /\ In a s /\
+          exists p, In p (predicates (an_formula a)) /\ ~ In p (task_prog_private t) /\ ~ In p inputs))
+  | SpecificationContainsUnsupportedRoles a =>
+      exists s, et_specification t = inr s /\ spec_roles_supported s = false /\
+        In a s /\ an_role a <> RAssumption /\ an_role a <> RSpec
+  | OutputPredicateInUserGuideAssumption _ | ProofOutlineError _ => False
   end.
+
+Lemma ensure_tight_cases t p :
+  (exists w, ensure_program_tightness is_tight t p = Ok w) \/
+  (ensure_program_tightness is_tight t p = Err (NonTightProgram p) /\
+   is_tight p = false /\ et_bypass_tightness t = false).
+Proof.
+  unfold ensure_program_tightness. destruct (is_tight p); [left; eauto|].
+  destruct (et_bypass_tightness t); [left; eauto|right; auto].
+Qed.
 
 Theorem validate_error_sound t e : validate t = Err e -> error_names_violation t e.
 Proof using is_tight has_private_recursion.
   clear tau_star completion simp_classic.
-  destruct t as [spec prog ug po dec dir repr byp simp brk].
-  unfold external_validate, error_names_violation, c_tight, c_no_private_recursion, c_no_input_in_head,
-    c_io_disjoint, c_ug_assumptions_inputs_only, c_spec_assumptions_no_output, c_placeholders_single_sorted,
-    task_prog_private, task_spec_private, ensure_program_tightness.
-  cbn [et_specification et_program et_user_guide et_repr et_bypass_tightness].
-  destruct repr; [intros [= <-]; reflexivity|].
-  destruct spec as [p|s];
-    repeat (match goal with
-            | |- context [if negb ?c then _ else _] => destruct c eqn:?; cbn [negb]
-            | |- context [if ?c then _ else _] => destruct c eqn:?
-            end);
-    try discriminate; intros [= <-]; cbn [negb andb orb];
-    repeat match goal with H : ?x = _ |- context [?x] => rewrite H end; cbn [negb andb orb];
-    try reflexivity; try (apply andb_false_r); try (left; reflexivity);
-    try (right; eexists; split; [reflexivity|assumption]);
-    try (eexists; split; [reflexivity|assumption]).
+  unfold external_validate, error_names_violation, is_task_program.
+  destruct (et_repr t) eqn:Er; [intros [= <-]; reflexivity|].
+  (* input / output overlap *)
+  destruct (is_nil (iset_inter pred_dec (ug_input_predicates (et_user_guide t)) (ug_output_predicates (et_user_guide t)))) eqn:E1; cbn [negb].
+  2:{ intros [= <-]. split; [exact E1|]. split; [reflexivity|]. split; [apply is_nil_false, E1|].
+      intros p. apply in_iset_inter. }
+  (* tightness of the program *)
+  destruct (ensure_tight_cases t (et_program t)) as [[w1 ->]|[-> [Ht1 Hb]]].
+  2:{ intros [= <-]. split; [|split; [left; reflexivity|exact Ht1]]. unfold c_tight. rewrite Hb, Ht1. reflexivity. }
+  (* private recursion of the program *)
+  destruct (has_private_recursion (et_program t) _) eqn:E3.
+  { intros [= <-]. split; [|left; split; [reflexivity|exact E3]].
+    unfold c_no_private_recursion, task_prog_private. rewrite E3. reflexivity. }
+  (* input predicates in rule heads of the program *)
+  destruct (is_nil (iset_inter pred_dec (ug_input_predicates (et_user_guide t)) (head_predicates_fol (et_program t)))) eqn:E4; cbn [negb].
+  2:{ intros [= <-]. split; [unfold c_no_input_in_head; rewrite E4; reflexivity|].
+      split; [apply is_nil_false, E4|]. exists (et_program t). split; [left; reflexivity|].
+      split; [reflexivity|]. intros p. apply in_iset_inter. }
+  (* placeholders *)
+  destruct (placeholder_clash_name (ug_placeholders (et_user_guide t)) []) as [n|] eqn:E5.
+  { intros [= <-]. split; [|exact (placeholder_clash_name_sorts _ _ E5)].
+    unfold c_placeholders_single_sorted.
+    destruct (placeholder_clash (ug_placeholders (et_user_guide t)) []) eqn:Ec; [reflexivity|].
+    apply placeholder_clash_name_none in Ec. congruence. }
+  (* user-guide assumptions *)
+  destruct (first_non_input_assumption [] (ug_input_predicates (et_user_guide t)) (ug_formulas (et_user_guide t))) as [a|] eqn:E6.
+  { intros [= <-]. destruct (first_non_input_some _ _ _ _ E6) as [Hin [Hr [p [Hp [_ Hni]]]]].
+    split; [exact Hr|]. left. split; [exact (bool_not_true_none _ _ (first_non_input_none _ _ _) _ E6)|].
+    split; [exact Hin|]. exists p. auto. }
+  destruct (et_specification t) as [p|s] eqn:Es.
+  - (* specification program *)
+    destruct (ensure_tight_cases t p) as [[w2 ->]|[-> [Ht2 Hb]]].
+    2:{ intros [= <-]. split; [|split; [right; reflexivity|exact Ht2]].
+        unfold c_tight. rewrite Hb, Es, Ht2. apply andb_false_r. }
+    destruct (has_private_recursion p _) eqn:E8.
+    { intros [= <-]. split.
+      - unfold c_no_private_recursion, task_spec_private. rewrite Es, E8. apply andb_false_r.
+      - right. split; [reflexivity|]. unfold task_spec_private. rewrite Es. exact E8. }
+    destruct (is_nil (iset_inter pred_dec (ug_input_predicates (et_user_guide t)) (head_predicates_fol p))) eqn:E9; cbn [negb]; [discriminate|].
+    intros [= <-]. split; [unfold c_no_input_in_head; rewrite Es, E9; apply andb_false_r|].
+    split; [apply is_nil_false, E9|]. exists p. split; [right; reflexivity|].
+    split; [reflexivity|]. intros q. apply in_iset_inter.
+  - (* specification *)
+    destruct (first_output_overlap (ug_output_predicates (et_user_guide t)) s) as [ps|] eqn:E7.
+    { intros [= <-]. destruct (first_output_overlap_some _ _ _ E7) as [Hne [a [Hin [Hr Eps]]]].
+      split; [unfold c_spec_assumptions_no_output; rewrite Es;
+              exact (bool_not_true_none _ _ (first_output_overlap_none _ _) _ E7)|].
+      split; [exact Hne|]. exists s, a. split; [reflexivity|]. split; [exact Hin|]. split; [exact Hr|].
+      split; [exact Eps|]. intros q. rewrite Eps. apply in_output_overlap. }
+    destruct (first_non_input_assumption _ (ug_input_predicates (et_user_guide t)) s) as [a|] eqn:E10.
+    { intros [= <-]. destruct (first_non_input_some _ _ _ _ E10) as [Hin [Hr [q [Hq [Hnp Hni]]]]].
+      split; [exact Hr|]. right. exists s. split; [reflexivity|].
+      split; [exact (bool_not_true_none _ _ (first_non_input_none _ _ _) _ E10)|].
+      split; [exact Hin|]. exists q. auto. }
+    destruct (first_unsupported_role s) as [a|] eqn:E11; [|discriminate].
+    intros [= <-]. exists s. split; [reflexivity|].
+    split; [exact (bool_not_true_none _ _ (first_unsupported_role_none _) _ E11)|].
+    exact (first_unsupported_role_some _ _ E11).
 Qed.
 
 (* ... and the variant is the one of the violated condition when it is the only one violated
    (the checks run in source order and stop at the first failure, so with several violations the
    first one in that order is reported: validate_error_sound) *)
-Definition variant_of (k : nat) : ext_error :=
-  match k with
-  | 1 => NonTightProgram | 2 => ProgramContainsPrivateRecursion | 3 => InputPredicateInRuleHead
-  | 4 => InputOutputPredicatesOverlap | 5 => AssumptionContainsNonInputSymbols
-  | 6 => OutputPredicateInSpecificationAssumption | _ => PlaceholdersWithIdenticalNamesDifferentSorts
+Definition variant_index (e : ext_error) : nat :=
+  match e with
+  | NonTightProgram _ => 1 | ProgramContainsPrivateRecursion _ => 2 | InputPredicateInRuleHead _ => 3
+  | InputOutputPredicatesOverlap _ => 4 | AssumptionContainsNonInputSymbols _ => 5
+  | OutputPredicateInSpecificationAssumption _ => 6 | PlaceholdersWithIdenticalNamesDifferentSorts _ => 7
+  | _ => 0
   end.
 Definition condition (k : nat) (t : ext_task) : bool :=
   match k with
@@ -179,14 +378,39 @@ Definition condition (k : nat) (t : ext_task) : bool :=
   | 3 => c_no_input_in_head t | 4 => c_io_disjoint t | 5 => c_ug_assumptions_inputs_only t
   | 6 => c_spec_assumptions_no_output t | _ => c_placeholders_single_sorted t
   end.
-Theorem single_violation_variant t k : 1 <= k <= 7 -> et_repr t = ReprTauStar ->
-  condition k t = false -> (forall j, 1 <= j <= 7 -> j <> k -> condition j t = true) ->
-  validate t = Err (variant_of k) /\ decompose_ext t = Err (variant_of k).
+
+Lemma first_non_input_cases pis ins fs :
+  (assumptions_only_input pis ins fs = true /\ first_non_input_assumption pis ins fs = None) \/
+  (assumptions_only_input pis ins fs = false /\ exists a, first_non_input_assumption pis ins fs = Some a).
 Proof.
-  intros Hk Hr Hv Ho.
-  assert (Hval : validate t = Err (variant_of k)).
-  2:{ split; [exact Hval|]. unfold external_decompose. rewrite Hval. reflexivity. }
+  destruct (first_non_input_assumption pis ins fs) as [a|] eqn:E.
+  - right. split; [exact (bool_not_true_none _ _ (first_non_input_none _ _ _) _ E)|eauto].
+  - left. split; [apply first_non_input_none, E|reflexivity].
+Qed.
+Lemma first_output_overlap_cases outs fs :
+  (spec_assumptions_no_output outs fs = true /\ first_output_overlap outs fs = None) \/
+  (spec_assumptions_no_output outs fs = false /\ exists ps, first_output_overlap outs fs = Some ps).
+Proof.
+  destruct (first_output_overlap outs fs) as [a|] eqn:E.
+  - right. split; [exact (bool_not_true_none _ _ (first_output_overlap_none _ _) _ E)|eauto].
+  - left. split; [apply first_output_overlap_none, E|reflexivity].
+Qed.
+Lemma placeholder_clash_cases l names :
+  (placeholder_clash l names = false /\ placeholder_clash_name l names = None) \/
+  (placeholder_clash l names = true /\ exists n, placeholder_clash_name l names = Some n).
+Proof.
+  destruct (placeholder_clash_name l names) as [n|] eqn:E.
+  - right. split; [|eauto]. destruct (placeholder_clash l names) eqn:Ec; [reflexivity|].
+    apply placeholder_clash_name_none in Ec. congruence.
+  - left. split; [apply placeholder_clash_name_none, E|reflexivity].
+Qed.
+
+Lemma single_violation_index t k e : 1 <= k <= 7 -> et_repr t = ReprTauStar ->
+  condition k t = false -> (forall j, 1 <= j <= 7 -> j <> k -> condition j t = true) ->
+  validate t = Err e -> variant_index e = k.
+Proof using is_tight has_private_recursion.
   clear tau_star completion simp_classic.
+  intros Hk Hr Hv Ho. revert e.
   assert (H1 := Ho 1). assert (H2 := Ho 2). assert (H3 := Ho 3). assert (H4 := Ho 4).
   assert (H5 := Ho 5). assert (H6 := Ho 6). assert (H7 := Ho 7). clear Ho.
   destruct t as [spec prog ug po dec dir repr byp simp brk]. cbn in Hr. subst repr.
@@ -194,18 +418,44 @@ Proof.
   destruct k as [|[|[|[|[|[|[|[|k]]]]]]]]; try lia; clear Hk1 Hk7;
   repeat match goal with H : 1 <= ?j <= 7 -> ?j <> ?i -> _ |- _ =>
     first [specialize (H ltac:(lia) ltac:(lia)) | clear H] end;
-  unfold condition, variant_of, c_tight, c_no_private_recursion, c_no_input_in_head, c_io_disjoint,
+  unfold condition, c_tight, c_no_private_recursion, c_no_input_in_head, c_io_disjoint,
     c_ug_assumptions_inputs_only, c_spec_assumptions_no_output, c_placeholders_single_sorted,
     task_prog_private, task_spec_private, external_validate, ensure_program_tightness in *;
   cbn [et_specification et_program et_user_guide et_repr et_bypass_tightness] in *;
   destruct spec as [p|s];
   repeat (match goal with
+          | |- context [match first_non_input_assumption ?a ?b ?c with _ => _ end] =>
+              destruct (first_non_input_cases a b c) as [[? ->]|[? [? ->]]]
+          | |- context [match first_output_overlap ?a ?b with _ => _ end] =>
+              destruct (first_output_overlap_cases a b) as [[? ->]|[? [? ->]]]
+          | |- context [match placeholder_clash_name ?a ?b with _ => _ end] =>
+              destruct (placeholder_clash_cases a b) as [[? ->]|[? [? ->]]]
+          | |- context [match first_unsupported_role ?a with _ => _ end] =>
+              destruct (first_unsupported_role a)
           | |- context [if negb ?c then _ else _] => destruct c eqn:?; cbn [negb]
           | |- context [if ?c then _ else _] => destruct c eqn:?
           end);
+  intros e He; try discriminate He; injection He as <-; cbn [variant_index];
   try reflexivity; exfalso;
-  repeat match goal with E : ?x = _, H : context [?x] |- _ => rewrite E in H end;
-  cbn in *; first [congruence | destruct byp; cbn in *; congruence].
+  first [congruence |
+    repeat match goal with E : ?x = _, H : context [?x] |- _ =>
+      lazymatch x with true => fail | false => fail | _ => idtac end; progress (rewrite E in H) end;
+    cbn in *; first [congruence | destruct byp; cbn in *; congruence]].
+Qed.
+
+Theorem single_violation_variant t k : 1 <= k <= 7 -> et_repr t = ReprTauStar ->
+  condition k t = false -> (forall j, 1 <= j <= 7 -> j <> k -> condition j t = true) ->
+  exists e, validate t = Err e /\ decompose_ext t = Err e /\
+            variant_index e = k /\ error_names_violation t e.
+Proof.
+  intros Hk Hr Hv Ho.
+  assert (Ha : all_seven t = false).
+  { unfold all_seven. destruct Hk as [Hk1 Hk7].
+    destruct k as [|[|[|[|[|[|[|[|k]]]]]]]]; try lia; cbn [condition] in Hv; rewrite Hv;
+      rewrite ?andb_false_r; reflexivity. }
+  destruct (violation_refused t Ha) as [e [He Hd]]. exists e.
+  split; [exact He|]. split; [exact Hd|].
+  split; [exact (single_violation_index t k e Hk Hr Hv Ho He)|exact (validate_error_sound t e He)].
 Qed.
 
 (* converse for the validation step: the seven conditions together with the three remaining
@@ -233,12 +483,15 @@ Proof using is_tight has_private_recursion.
     destruct (et_bypass_tightness t); [eexists; reflexivity|discriminate]. }
   destruct (Ht (et_program t)) as [w1 ->].
   { destruct (et_bypass_tightness t); [reflexivity|]. cbn in H1. apply andb_true_iff in H1. cbn. tauto. }
+  apply placeholder_clash_name_none in H7. apply first_non_input_none in H5.
   rewrite H2a, H3a, H7, H5. cbn [negb].
   destruct (et_specification t) as [p|s].
   - destruct (Ht p) as [w2 ->].
     { destruct (et_bypass_tightness t); [reflexivity|]. cbn in H1. apply andb_true_iff in H1. cbn. tauto. }
     apply negb_true_iff in H2b. rewrite H2b, H3b. cbn. eexists; reflexivity.
-  - rewrite H6. cbn [negb]. destruct (Hs s eq_refl) as [-> ->]. cbn. eexists; reflexivity.
+  - apply first_output_overlap_none in H6. rewrite H6. destruct (Hs s eq_refl) as [Ha Hro].
+    apply first_non_input_none in Ha. apply first_unsupported_role_none in Hro.
+    rewrite Ha, Hro. eexists; reflexivity.
 Qed.
 End Enforce.
 
